@@ -104,8 +104,8 @@ func (w *walker) nvStore(s *fuefi.NVarStore, body []byte, pol byte, where string
 		fail("nesting deeper than 64")
 		return
 	}
-	if !bytes.Equal(s.Buf(), body) {
-		fail("store buffer (%d bytes) differs from the bytes it was parsed from (%d)", len(s.Buf()), len(body))
+	if !bytes.Equal(w.buf(s), body) {
+		fail("store buffer (%d bytes) differs from the bytes it was parsed from (%d)", len(w.buf(s)), len(body))
 	}
 	L := len(body)
 	if s.Length != uint64(L) {
@@ -145,7 +145,7 @@ func (w *walker) nvStore(s *fuefi.NVarStore, body []byte, pol byte, where string
 			return
 		}
 		buf := body[run : run+size]
-		if !bytes.Equal(v.Buf(), buf) {
+		if !bytes.Equal(w.buf(v), buf) {
 			fail("entry %d buffer differs from body[%#x:%#x)", k, run, run+size)
 		}
 		attrs := h[9]
